@@ -798,3 +798,12 @@ pub proof fn lemma_up_same(h: Heap, h2: Heap, n: int, a: int)
         lemma_up_same(h, h2, p, a);
     }
 }
+// #cut_left_goals [C02]: after a cut, the goals to its left are not re-tried.  An and-node that was on the walk of a cut has a
+// flagged head node (heap invariant), and a request on a flagged node returns None and does nothing (next_solution, clause
+// #cut_blocks): so the and-node's "try another solution of the head" yields nothing, wherever in the function it stands.
+pub proof fn lemma_cut_left_goals(h: Heap, n: int)
+    requires inv(h), alive(h, n), h.st[n].on_chain, h.st[n].head_sn is Some,
+    ensures alive(h, h.st[n].head_sn->0), h.st[h.st[n].head_sn->0].no_backtracking,
+{
+    lemma_unfold_me(h, n);
+}
